@@ -91,6 +91,7 @@ js::Value to_json(const Plan& p)
             j.set("faults", fs);
             j.set("stream_fail_after", o.stream_fail_after); j.set("stream_fail_mode", o.stream_fail_mode);
             j.set("alloc_fail_at", o.alloc_fail_at); j.set("lex_fail_call", o.lex_fail_call);
+            if (o.nest_at >= 0) j.set("nest_at", o.nest_at);
             ops.push(j);
         }
         js::Value tj = js::Value::obj();
@@ -140,6 +141,7 @@ Plan plan_from_json(const js::Value& v)
                 }
             o.stream_fail_after = j.num("stream_fail_after", -1); o.stream_fail_mode = int(j.num("stream_fail_mode"));
             o.alloc_fail_at = j.num("alloc_fail_at", -1); o.lex_fail_call = j.num("lex_fail_call", -1);
+            o.nest_at = j.num("nest_at", -1);
             t.ops.push_back(o);
         }
         p.tasks.push_back(t);
